@@ -1,8 +1,26 @@
-(* C18 — concrete layouts dumped from the REAL Schematic(obj) at the pinned commit (py/props/c18_dump.py), used as
-   non-vacuity / rejection examples in Properties/C18.v.  The comments list the symbols and nets of each layout. *)
+(* C18 — concrete layouts dumped from the REAL Schematic(obj) (py/props/c18_dump.py), used as non-vacuity / rejection
+   examples in Properties/C18.v.  The comments list the symbols and nets (with the end points of their polylines) of each layout.
+   Regenerated for the pin-geometry extension of the model on /repo 453c72d; ex_selfloop_l is the layout built before ead5329. *)
 From Coq Require Import List ZArith Bool Arith.
 Import ListNotations.
-From V Require Import Model.Schem Spec.C18 Proofs.C18.Sound.
+From V Require Import Model.Schem Spec.C18 Proofs.C18.Sound Proofs.C18.Complete.
+
+(* ex_selfloop (layout built BEFORE /repo commit ead5329) : children ['Reg:r'] ; swallowed ['WARNING: error in passthrough: AssertionError'] *)
+(*   sym 0 KIn d for=('in', 0) cell=(0, 0) *)
+(*   sym 1 KPass pt2 for=None cell=(1, 0) *)
+(*   sym 2 KInst r for=('ch', 0) cell=(0, 1) *)
+(*   sym 3 KPass pt1 for=None cell=(1, 1) *)
+(*   sym 4 KOut q for=('out', 0) cell=(0, 2) *)
+(*   sym 5 KFbStart fA0 for=None cell=(1, 2) *)
+(*   net 0 w0 /HWSystem[HWSystem][d]: d.d -> r.d   (15, 28) -> (60, 36) *)
+(*   net 1 w1 /HWSystem[HWSystem][q]: r.q -> q.q   (125, 36) -> (155, 28) *)
+(*   net 2 w1 /HWSystem[HWSystem][q]: r.q -> fA0.None   (125, 36) -> (140, 120) *)
+(*   net 3 w1 /HWSystem[HWSystem][q]: pt1.None -> fA0.None   (80, 120) -> (140, 120) *)
+(*   net 4 w1 /HWSystem[HWSystem][q]: pt2.None -> pt1.None   (20, 120) -> (60, 120) *)
+Definition ex_selfloop_c : circuit :=
+  (Circ 1 1 [(2, 1)] [WC 0 (Pin (EIn 0) true 0) [(Pin (EChild 0) false 0)]; WC 1 (Pin (EChild 0) true 0) [(Pin (EChild 0) false 1); (Pin (EOut 0) false 0)]]).
+Definition ex_selfloop_l : layout :=
+  (Lay [Sym 0 KIn (Some (EIn 0)) 0%Z 0%Z 0%Z 15%Z 15%Z 20%Z; Sym 1 KPass None 1%Z 0%Z 0%Z 110%Z 20%Z 20%Z; Sym 2 KInst (Some (EChild 0)) 0%Z 1%Z 60%Z 15%Z 65%Z 80%Z; Sym 3 KPass None 1%Z 1%Z 60%Z 110%Z 20%Z 20%Z; Sym 4 KOut (Some (EOut 0)) 0%Z 2%Z 155%Z 15%Z 15%Z 20%Z; Sym 5 KFbStart None 1%Z 2%Z 155%Z 110%Z 20%Z 20%Z] [Net 0 (End 0 (Some (Pin (EIn 0) true 0))) (End 2 (Some (Pin (EChild 0) false 0))) (Some (15%Z, 28%Z)) (Some (60%Z, 36%Z)); Net 1 (End 2 (Some (Pin (EChild 0) true 0))) (End 4 (Some (Pin (EOut 0) false 0))) (Some (125%Z, 36%Z)) (Some (155%Z, 28%Z)); Net 1 (End 2 (Some (Pin (EChild 0) true 0))) (End 5 None) (Some (125%Z, 36%Z)) (Some (140%Z, 120%Z)); Net 1 (End 3 None) (End 5 None) (Some (80%Z, 120%Z)) (Some (140%Z, 120%Z)); Net 1 (End 1 None) (End 3 None) (Some (20%Z, 120%Z)) (Some (60%Z, 120%Z))] [PinAt 0 (Pin (EIn 0) true 0) 15%Z 28%Z; PinAt 2 (Pin (EChild 0) false 0) 60%Z 36%Z; PinAt 2 (Pin (EChild 0) false 1) 60%Z 64%Z; PinAt 2 (Pin (EChild 0) true 0) 125%Z 36%Z; PinAt 4 (Pin (EOut 0) false 0) 155%Z 28%Z]).
 
 (* ex_add : children ['Constant:ci', 'AddCarryIn:add', 'Range:r', 'Bit:co'] ; swallowed [] *)
 (*   sym 0 KIn a for=('in', 0) cell=(0, 0) *)
@@ -15,22 +33,22 @@ From V Require Import Model.Schem Spec.C18 Proofs.C18.Sound.
 (*   sym 7 KInst co for=('ch', 3) cell=(2, 3) *)
 (*   sym 8 KOut r for=('out', 0) cell=(0, 4) *)
 (*   sym 9 KOut co for=('out', 1) cell=(2, 4) *)
-(*   net 0 w2 /HWSystem[HWSystem]/Add[dut][ci]: ci.r -> add.ci *)
-(*   net 1 w3 /HWSystem[HWSystem]/Add[dut][pre_r]: add.r -> r.a *)
-(*   net 2 w3 /HWSystem[HWSystem]/Add[dut][pre_r]: add.r -> co.a *)
-(*   net 3 w4 /HWSystem[HWSystem][r]: r.r -> r.r *)
-(*   net 4 w5 /HWSystem[HWSystem][co]: co.r -> co.co *)
-(*   net 5 w0 /HWSystem[HWSystem][a]: a.a -> pt0.None *)
-(*   net 6 w0 /HWSystem[HWSystem][a]: pt0.None -> add.a *)
-(*   net 7 w1 /HWSystem[HWSystem][b]: b.b -> pt1.None *)
-(*   net 8 w1 /HWSystem[HWSystem][b]: pt1.None -> add.b *)
+(*   net 0 w2 /HWSystem[HWSystem]/Add[dut][ci]: ci.r -> add.ci   (110, 36) -> (160, 92) *)
+(*   net 1 w3 /HWSystem[HWSystem]/Add[dut][pre_r]: add.r -> r.a   (227, 36) -> (257, 33) *)
+(*   net 2 w3 /HWSystem[HWSystem]/Add[dut][pre_r]: add.r -> co.a   (227, 36) -> (257, 191) *)
+(*   net 3 w4 /HWSystem[HWSystem][r]: r.r -> r.r   (267, 33) -> (317, 28) *)
+(*   net 4 w5 /HWSystem[HWSystem][co]: co.r -> co.co   (267, 191) -> (317, 186) *)
+(*   net 5 w0 /HWSystem[HWSystem][a]: a.a -> pt0.None   (15, 28) -> (55, 148) *)
+(*   net 6 w0 /HWSystem[HWSystem][a]: pt0.None -> add.a   (75, 148) -> (160, 36) *)
+(*   net 7 w1 /HWSystem[HWSystem][b]: b.b -> pt1.None   (15, 186) -> (55, 218) *)
+(*   net 8 w1 /HWSystem[HWSystem][b]: pt1.None -> add.b   (75, 218) -> (160, 64) *)
 Definition ex_add_c : circuit :=
   (Circ 2 2 [(0, 1); (3, 1); (1, 1); (1, 1)] [WC 0 (Pin (EIn 0) true 0) [(Pin (EChild 1) false 0)]; WC 1 (Pin (EIn 1) true 0) [(Pin (EChild 1) false 1)]; WC 2 (Pin (EChild 0) true 0) [(Pin (EChild 1) false 2)]; WC 3 (Pin (EChild 1) true 0) [(Pin (EChild 2) false 0); (Pin (EChild 3) false 0)]; WC 4 (Pin (EChild 2) true 0) [(Pin (EOut 0) false 0)]; WC 5 (Pin (EChild 3) true 0) [(Pin (EOut 1) false 0)]]).
 Definition ex_add_l : layout :=
-  (Lay [Sym 0 KIn (Some (EIn 0)) 0%Z 0%Z 0%Z 15%Z 15%Z 20%Z; Sym 1 KIn (Some (EIn 1)) 2%Z 0%Z 0%Z 173%Z 15%Z 20%Z; Sym 2 KInst (Some (EChild 0)) 0%Z 1%Z 55%Z 15%Z 55%Z 52%Z; Sym 3 KPass None 1%Z 1%Z 55%Z 138%Z 20%Z 20%Z; Sym 4 KPass None 3%Z 1%Z 55%Z 208%Z 20%Z 20%Z; Sym 5 KInst (Some (EChild 1)) 0%Z 2%Z 160%Z 15%Z 67%Z 108%Z; Sym 6 KInst (Some (EChild 2)) 0%Z 3%Z 257%Z 15%Z 20%Z 20%Z; Sym 7 KInst (Some (EChild 3)) 2%Z 3%Z 257%Z 173%Z 20%Z 20%Z; Sym 8 KOut (Some (EOut 0)) 0%Z 4%Z 317%Z 15%Z 15%Z 20%Z; Sym 9 KOut (Some (EOut 1)) 2%Z 4%Z 317%Z 173%Z 15%Z 20%Z] [Net 2 (End 2 (Some (Pin (EChild 0) true 0))) (End 5 (Some (Pin (EChild 1) false 2))); Net 3 (End 5 (Some (Pin (EChild 1) true 0))) (End 6 (Some (Pin (EChild 2) false 0))); Net 3 (End 5 (Some (Pin (EChild 1) true 0))) (End 7 (Some (Pin (EChild 3) false 0))); Net 4 (End 6 (Some (Pin (EChild 2) true 0))) (End 8 (Some (Pin (EOut 0) false 0))); Net 5 (End 7 (Some (Pin (EChild 3) true 0))) (End 9 (Some (Pin (EOut 1) false 0))); Net 0 (End 0 (Some (Pin (EIn 0) true 0))) (End 3 None); Net 0 (End 3 None) (End 5 (Some (Pin (EChild 1) false 0))); Net 1 (End 1 (Some (Pin (EIn 1) true 0))) (End 4 None); Net 1 (End 4 None) (End 5 (Some (Pin (EChild 1) false 1)))]).
+  (Lay [Sym 0 KIn (Some (EIn 0)) 0%Z 0%Z 0%Z 15%Z 15%Z 20%Z; Sym 1 KIn (Some (EIn 1)) 2%Z 0%Z 0%Z 173%Z 15%Z 20%Z; Sym 2 KInst (Some (EChild 0)) 0%Z 1%Z 55%Z 15%Z 55%Z 52%Z; Sym 3 KPass None 1%Z 1%Z 55%Z 138%Z 20%Z 20%Z; Sym 4 KPass None 3%Z 1%Z 55%Z 208%Z 20%Z 20%Z; Sym 5 KInst (Some (EChild 1)) 0%Z 2%Z 160%Z 15%Z 67%Z 108%Z; Sym 6 KInst (Some (EChild 2)) 0%Z 3%Z 257%Z 15%Z 20%Z 20%Z; Sym 7 KInst (Some (EChild 3)) 2%Z 3%Z 257%Z 173%Z 20%Z 20%Z; Sym 8 KOut (Some (EOut 0)) 0%Z 4%Z 317%Z 15%Z 15%Z 20%Z; Sym 9 KOut (Some (EOut 1)) 2%Z 4%Z 317%Z 173%Z 15%Z 20%Z] [Net 2 (End 2 (Some (Pin (EChild 0) true 0))) (End 5 (Some (Pin (EChild 1) false 2))) (Some (110%Z, 36%Z)) (Some (160%Z, 92%Z)); Net 3 (End 5 (Some (Pin (EChild 1) true 0))) (End 6 (Some (Pin (EChild 2) false 0))) (Some (227%Z, 36%Z)) (Some (257%Z, 33%Z)); Net 3 (End 5 (Some (Pin (EChild 1) true 0))) (End 7 (Some (Pin (EChild 3) false 0))) (Some (227%Z, 36%Z)) (Some (257%Z, 191%Z)); Net 4 (End 6 (Some (Pin (EChild 2) true 0))) (End 8 (Some (Pin (EOut 0) false 0))) (Some (267%Z, 33%Z)) (Some (317%Z, 28%Z)); Net 5 (End 7 (Some (Pin (EChild 3) true 0))) (End 9 (Some (Pin (EOut 1) false 0))) (Some (267%Z, 191%Z)) (Some (317%Z, 186%Z)); Net 0 (End 0 (Some (Pin (EIn 0) true 0))) (End 3 None) (Some (15%Z, 28%Z)) (Some (55%Z, 148%Z)); Net 0 (End 3 None) (End 5 (Some (Pin (EChild 1) false 0))) (Some (75%Z, 148%Z)) (Some (160%Z, 36%Z)); Net 1 (End 1 (Some (Pin (EIn 1) true 0))) (End 4 None) (Some (15%Z, 186%Z)) (Some (55%Z, 218%Z)); Net 1 (End 4 None) (End 5 (Some (Pin (EChild 1) false 1))) (Some (75%Z, 218%Z)) (Some (160%Z, 64%Z))] [PinAt 0 (Pin (EIn 0) true 0) 15%Z 28%Z; PinAt 1 (Pin (EIn 1) true 0) 15%Z 186%Z; PinAt 2 (Pin (EChild 0) true 0) 110%Z 36%Z; PinAt 5 (Pin (EChild 1) false 0) 160%Z 36%Z; PinAt 5 (Pin (EChild 1) false 1) 160%Z 64%Z; PinAt 5 (Pin (EChild 1) false 2) 160%Z 92%Z; PinAt 5 (Pin (EChild 1) true 0) 227%Z 36%Z; PinAt 6 (Pin (EChild 2) false 0) 257%Z 33%Z; PinAt 6 (Pin (EChild 2) true 0) 267%Z 33%Z; PinAt 7 (Pin (EChild 3) false 0) 257%Z 191%Z; PinAt 7 (Pin (EChild 3) true 0) 267%Z 191%Z; PinAt 8 (Pin (EOut 0) false 0) 317%Z 28%Z; PinAt 9 (Pin (EOut 1) false 0) 317%Z 186%Z]).
 (* the same layout with net 6 (/HWSystem[HWSystem][a]: pt0.None -> add.a) dropped *)
 Definition ex_add_dropped_l : layout :=
-  (Lay [Sym 0 KIn (Some (EIn 0)) 0%Z 0%Z 0%Z 15%Z 15%Z 20%Z; Sym 1 KIn (Some (EIn 1)) 2%Z 0%Z 0%Z 173%Z 15%Z 20%Z; Sym 2 KInst (Some (EChild 0)) 0%Z 1%Z 55%Z 15%Z 55%Z 52%Z; Sym 3 KPass None 1%Z 1%Z 55%Z 138%Z 20%Z 20%Z; Sym 4 KPass None 3%Z 1%Z 55%Z 208%Z 20%Z 20%Z; Sym 5 KInst (Some (EChild 1)) 0%Z 2%Z 160%Z 15%Z 67%Z 108%Z; Sym 6 KInst (Some (EChild 2)) 0%Z 3%Z 257%Z 15%Z 20%Z 20%Z; Sym 7 KInst (Some (EChild 3)) 2%Z 3%Z 257%Z 173%Z 20%Z 20%Z; Sym 8 KOut (Some (EOut 0)) 0%Z 4%Z 317%Z 15%Z 15%Z 20%Z; Sym 9 KOut (Some (EOut 1)) 2%Z 4%Z 317%Z 173%Z 15%Z 20%Z] [Net 2 (End 2 (Some (Pin (EChild 0) true 0))) (End 5 (Some (Pin (EChild 1) false 2))); Net 3 (End 5 (Some (Pin (EChild 1) true 0))) (End 6 (Some (Pin (EChild 2) false 0))); Net 3 (End 5 (Some (Pin (EChild 1) true 0))) (End 7 (Some (Pin (EChild 3) false 0))); Net 4 (End 6 (Some (Pin (EChild 2) true 0))) (End 8 (Some (Pin (EOut 0) false 0))); Net 5 (End 7 (Some (Pin (EChild 3) true 0))) (End 9 (Some (Pin (EOut 1) false 0))); Net 0 (End 0 (Some (Pin (EIn 0) true 0))) (End 3 None); Net 1 (End 1 (Some (Pin (EIn 1) true 0))) (End 4 None); Net 1 (End 4 None) (End 5 (Some (Pin (EChild 1) false 1)))]).
+  (Lay [Sym 0 KIn (Some (EIn 0)) 0%Z 0%Z 0%Z 15%Z 15%Z 20%Z; Sym 1 KIn (Some (EIn 1)) 2%Z 0%Z 0%Z 173%Z 15%Z 20%Z; Sym 2 KInst (Some (EChild 0)) 0%Z 1%Z 55%Z 15%Z 55%Z 52%Z; Sym 3 KPass None 1%Z 1%Z 55%Z 138%Z 20%Z 20%Z; Sym 4 KPass None 3%Z 1%Z 55%Z 208%Z 20%Z 20%Z; Sym 5 KInst (Some (EChild 1)) 0%Z 2%Z 160%Z 15%Z 67%Z 108%Z; Sym 6 KInst (Some (EChild 2)) 0%Z 3%Z 257%Z 15%Z 20%Z 20%Z; Sym 7 KInst (Some (EChild 3)) 2%Z 3%Z 257%Z 173%Z 20%Z 20%Z; Sym 8 KOut (Some (EOut 0)) 0%Z 4%Z 317%Z 15%Z 15%Z 20%Z; Sym 9 KOut (Some (EOut 1)) 2%Z 4%Z 317%Z 173%Z 15%Z 20%Z] [Net 2 (End 2 (Some (Pin (EChild 0) true 0))) (End 5 (Some (Pin (EChild 1) false 2))) (Some (110%Z, 36%Z)) (Some (160%Z, 92%Z)); Net 3 (End 5 (Some (Pin (EChild 1) true 0))) (End 6 (Some (Pin (EChild 2) false 0))) (Some (227%Z, 36%Z)) (Some (257%Z, 33%Z)); Net 3 (End 5 (Some (Pin (EChild 1) true 0))) (End 7 (Some (Pin (EChild 3) false 0))) (Some (227%Z, 36%Z)) (Some (257%Z, 191%Z)); Net 4 (End 6 (Some (Pin (EChild 2) true 0))) (End 8 (Some (Pin (EOut 0) false 0))) (Some (267%Z, 33%Z)) (Some (317%Z, 28%Z)); Net 5 (End 7 (Some (Pin (EChild 3) true 0))) (End 9 (Some (Pin (EOut 1) false 0))) (Some (267%Z, 191%Z)) (Some (317%Z, 186%Z)); Net 0 (End 0 (Some (Pin (EIn 0) true 0))) (End 3 None) (Some (15%Z, 28%Z)) (Some (55%Z, 148%Z)); Net 1 (End 1 (Some (Pin (EIn 1) true 0))) (End 4 None) (Some (15%Z, 186%Z)) (Some (55%Z, 218%Z)); Net 1 (End 4 None) (End 5 (Some (Pin (EChild 1) false 1))) (Some (75%Z, 218%Z)) (Some (160%Z, 64%Z))] [PinAt 0 (Pin (EIn 0) true 0) 15%Z 28%Z; PinAt 1 (Pin (EIn 1) true 0) 15%Z 186%Z; PinAt 2 (Pin (EChild 0) true 0) 110%Z 36%Z; PinAt 5 (Pin (EChild 1) false 0) 160%Z 36%Z; PinAt 5 (Pin (EChild 1) false 1) 160%Z 64%Z; PinAt 5 (Pin (EChild 1) false 2) 160%Z 92%Z; PinAt 5 (Pin (EChild 1) true 0) 227%Z 36%Z; PinAt 6 (Pin (EChild 2) false 0) 257%Z 33%Z; PinAt 6 (Pin (EChild 2) true 0) 267%Z 33%Z; PinAt 7 (Pin (EChild 3) false 0) 257%Z 191%Z; PinAt 7 (Pin (EChild 3) true 0) 267%Z 191%Z; PinAt 8 (Pin (EOut 0) false 0) 317%Z 28%Z; PinAt 9 (Pin (EOut 1) false 0) 317%Z 186%Z]).
 (* ex_counter : children ['Constant:one', 'Constant:zero', 'Mux2:muxinc', 'Mux2:muxreset', 'Or2:e_add', 'Add:add', 'Reg:reg'] ; swallowed [] *)
 (*   sym 0 KIn reset for=('in', 0) cell=(0, 0) *)
 (*   sym 1 KIn inc for=('in', 1) cell=(5, 0) *)
@@ -50,66 +68,84 @@ Definition ex_add_dropped_l : layout :=
 (*   sym 15 KPass pt3 for=None cell=(6, 3) *)
 (*   sym 16 KPass pt14 for=None cell=(9, 3) *)
 (*   sym 17 KInst add for=('ch', 5) cell=(0, 4) *)
-(*   sym 18 KPass pt10 for=None cell=(1, 4) *)
+(*   sym 18 KPass pt9 for=None cell=(1, 4) *)
 (*   sym 19 KPass pt8 for=None cell=(2, 4) *)
 (*   sym 20 KPass pt4 for=None cell=(6, 4) *)
 (*   sym 21 KPass pt13 for=None cell=(9, 4) *)
 (*   sym 22 KInst muxinc for=('ch', 2) cell=(0, 5) *)
-(*   sym 23 KPass pt9 for=None cell=(2, 5) *)
+(*   sym 23 KPass pt10 for=None cell=(1, 5) *)
 (*   sym 24 KPass pt12 for=None cell=(9, 5) *)
 (*   sym 25 KOut q for=('out', 0) cell=(0, 6) *)
 (*   sym 26 KFbStart fA11 for=None cell=(9, 6) *)
-(*   net 0 w5 /HWSystem[HWSystem]/Counter[dut][add]: add.r -> muxinc.sel1 *)
-(*   net 1 w3 /HWSystem[HWSystem]/Counter[dut][zero]: zero.r -> muxreset.sel1 *)
-(*   net 2 w0 /HWSystem[HWSystem][rst]: reset.reset -> e_add.a *)
-(*   net 3 w1 /HWSystem[HWSystem][inc]: inc.inc -> e_add.b *)
-(*   net 4 w4 /HWSystem[HWSystem][q]: reg.q -> add.a *)
-(*   net 5 w7 /HWSystem[HWSystem]/Counter[dut][d]: muxreset.r -> reg.d *)
-(*   net 6 w0 /HWSystem[HWSystem][rst]: reset.reset -> pt0.None *)
-(*   net 7 w0 /HWSystem[HWSystem][rst]: pt0.None -> muxreset.sel *)
-(*   net 8 w1 /HWSystem[HWSystem][inc]: inc.inc -> pt1.None *)
-(*   net 9 w1 /HWSystem[HWSystem][inc]: pt1.None -> pt2.None *)
-(*   net 10 w1 /HWSystem[HWSystem][inc]: pt2.None -> pt3.None *)
-(*   net 11 w1 /HWSystem[HWSystem][inc]: pt3.None -> pt4.None *)
-(*   net 12 w1 /HWSystem[HWSystem][inc]: pt4.None -> muxinc.sel *)
-(*   net 13 w2 /HWSystem[HWSystem]/Counter[dut][one]: one.r -> pt5.None *)
-(*   net 14 w2 /HWSystem[HWSystem]/Counter[dut][one]: pt5.None -> pt6.None *)
-(*   net 15 w2 /HWSystem[HWSystem]/Counter[dut][one]: pt6.None -> add.b *)
-(*   net 16 w8 /HWSystem[HWSystem]/Counter[dut][e_add]: e_add.r -> pt7.None *)
-(*   net 17 w8 /HWSystem[HWSystem]/Counter[dut][e_add]: pt7.None -> reg.e *)
-(*   net 18 w4 /HWSystem[HWSystem][q]: reg.q -> pt8.None *)
-(*   net 19 w4 /HWSystem[HWSystem][q]: pt8.None -> pt9.None *)
-(*   net 20 w4 /HWSystem[HWSystem][q]: pt9.None -> q.q *)
-(*   net 21 w4 /HWSystem[HWSystem][q]: reg.q -> pt10.None *)
-(*   net 22 w4 /HWSystem[HWSystem][q]: pt10.None -> muxinc.sel0 *)
-(*   net 23 w6 /HWSystem[HWSystem]/Counter[dut][d1]: muxinc.r -> fA11.None *)
-(*   net 24 w6 /HWSystem[HWSystem]/Counter[dut][d1]: pt12.None -> fA11.None *)
-(*   net 25 w6 /HWSystem[HWSystem]/Counter[dut][d1]: pt13.None -> pt12.None *)
-(*   net 26 w6 /HWSystem[HWSystem]/Counter[dut][d1]: pt14.None -> pt13.None *)
-(*   net 27 w6 /HWSystem[HWSystem]/Counter[dut][d1]: pt15.None -> pt14.None *)
-(*   net 28 w6 /HWSystem[HWSystem]/Counter[dut][d1]: fZ16.None -> pt15.None *)
-(*   net 29 w6 /HWSystem[HWSystem]/Counter[dut][d1]: fZ16.None -> muxreset.sel0 *)
+(*   net 0 w5 /HWSystem[HWSystem]/Counter[dut][add]: add.r -> muxinc.sel1   (455, 36) -> (515, 73) *)
+(*   net 1 w3 /HWSystem[HWSystem]/Counter[dut][zero]: zero.r -> muxreset.sel1   (110, 271) -> (190, 73) *)
+(*   net 2 w0 /HWSystem[HWSystem][rst]: reset.reset -> e_add.a   (15, 28) -> (60, 370) *)
+(*   net 3 w1 /HWSystem[HWSystem][inc]: inc.inc -> e_add.b   (15, 263) -> (60, 390) *)
+(*   net 4 w4 /HWSystem[HWSystem][q]: reg.q -> add.a   (345, 36) -> (413, 31) *)
+(*   net 5 w7 /HWSystem[HWSystem]/Counter[dut][d]: muxreset.r -> reg.d   (210, 63) -> (280, 36) *)
+(*   net 6 w0 /HWSystem[HWSystem][rst]: reset.reset -> pt0.None   (15, 28) -> (55, 225) *)
+(*   net 7 w0 /HWSystem[HWSystem][rst]: pt0.None -> muxreset.sel   (75, 225) -> (190, 33) *)
+(*   net 8 w1 /HWSystem[HWSystem][inc]: inc.inc -> pt1.None   (15, 263) -> (55, 327) *)
+(*   net 9 w1 /HWSystem[HWSystem][inc]: pt1.None -> pt2.None   (75, 327) -> (190, 327) *)
+(*   net 10 w1 /HWSystem[HWSystem][inc]: pt2.None -> pt3.None   (210, 327) -> (280, 327) *)
+(*   net 11 w1 /HWSystem[HWSystem][inc]: pt3.None -> pt4.None   (300, 327) -> (405, 327) *)
+(*   net 12 w1 /HWSystem[HWSystem][inc]: pt4.None -> muxinc.sel   (425, 327) -> (515, 33) *)
+(*   net 13 w2 /HWSystem[HWSystem]/Counter[dut][one]: one.r -> pt5.None   (110, 36) -> (190, 190) *)
+(*   net 14 w2 /HWSystem[HWSystem]/Counter[dut][one]: pt5.None -> pt6.None   (210, 190) -> (280, 190) *)
+(*   net 15 w2 /HWSystem[HWSystem]/Counter[dut][one]: pt6.None -> add.b   (300, 190) -> (413, 65) *)
+(*   net 16 w8 /HWSystem[HWSystem]/Counter[dut][e_add]: e_add.r -> pt7.None   (105, 380) -> (190, 425) *)
+(*   net 17 w8 /HWSystem[HWSystem]/Counter[dut][e_add]: pt7.None -> reg.e   (210, 425) -> (280, 64) *)
+(*   net 18 w4 /HWSystem[HWSystem][q]: reg.q -> pt8.None   (345, 36) -> (405, 155) *)
+(*   net 19 w4 /HWSystem[HWSystem][q]: pt8.None -> muxinc.sel0   (425, 155) -> (515, 53) *)
+(*   net 20 w4 /HWSystem[HWSystem][q]: reg.q -> pt9.None   (345, 36) -> (405, 120) *)
+(*   net 21 w4 /HWSystem[HWSystem][q]: pt9.None -> pt10.None   (425, 120) -> (515, 120) *)
+(*   net 22 w4 /HWSystem[HWSystem][q]: pt10.None -> q.q   (535, 120) -> (575, 28) *)
+(*   net 23 w6 /HWSystem[HWSystem]/Counter[dut][d1]: muxinc.r -> fA11.None   (535, 63) -> (550, 460) *)
+(*   net 24 w6 /HWSystem[HWSystem]/Counter[dut][d1]: pt12.None -> fA11.None   (535, 460) -> (550, 460) *)
+(*   net 25 w6 /HWSystem[HWSystem]/Counter[dut][d1]: pt13.None -> pt12.None   (425, 460) -> (515, 460) *)
+(*   net 26 w6 /HWSystem[HWSystem]/Counter[dut][d1]: pt14.None -> pt13.None   (300, 460) -> (405, 460) *)
+(*   net 27 w6 /HWSystem[HWSystem]/Counter[dut][d1]: pt15.None -> pt14.None   (210, 460) -> (280, 460) *)
+(*   net 28 w6 /HWSystem[HWSystem]/Counter[dut][d1]: fZ16.None -> pt15.None   (135, 460) -> (190, 460) *)
+(*   net 29 w6 /HWSystem[HWSystem]/Counter[dut][d1]: fZ16.None -> muxreset.sel0   (135, 460) -> (190, 53) *)
 Definition ex_counter_c : circuit :=
   (Circ 2 1 [(0, 1); (0, 1); (3, 1); (3, 1); (2, 1); (2, 1); (2, 1)] [WC 0 (Pin (EIn 0) true 0) [(Pin (EChild 3) false 0); (Pin (EChild 4) false 0)]; WC 1 (Pin (EIn 1) true 0) [(Pin (EChild 2) false 0); (Pin (EChild 4) false 1)]; WC 2 (Pin (EChild 0) true 0) [(Pin (EChild 5) false 1)]; WC 3 (Pin (EChild 1) true 0) [(Pin (EChild 3) false 2)]; WC 4 (Pin (EChild 6) true 0) [(Pin (EChild 2) false 1); (Pin (EChild 5) false 0); (Pin (EOut 0) false 0)]; WC 5 (Pin (EChild 5) true 0) [(Pin (EChild 2) false 2)]; WC 6 (Pin (EChild 2) true 0) [(Pin (EChild 3) false 1)]; WC 7 (Pin (EChild 3) true 0) [(Pin (EChild 6) false 0)]; WC 8 (Pin (EChild 4) true 0) [(Pin (EChild 6) false 1)]]).
 Definition ex_counter_l : layout :=
-  (Lay [Sym 0 KIn (Some (EIn 0)) 0%Z 0%Z 0%Z 15%Z 15%Z 20%Z; Sym 1 KIn (Some (EIn 1)) 5%Z 0%Z 0%Z 250%Z 15%Z 20%Z; Sym 2 KInst (Some (EChild 0)) 0%Z 1%Z 55%Z 15%Z 55%Z 52%Z; Sym 3 KPass None 4%Z 1%Z 55%Z 215%Z 20%Z 20%Z; Sym 4 KInst (Some (EChild 1)) 5%Z 1%Z 55%Z 250%Z 55%Z 52%Z; Sym 5 KPass None 6%Z 1%Z 55%Z 317%Z 20%Z 20%Z; Sym 6 KInst (Some (EChild 4)) 7%Z 1%Z 55%Z 352%Z 50%Z 48%Z; Sym 7 KFbStop None 9%Z 1%Z 55%Z 450%Z 20%Z 20%Z; Sym 8 KInst (Some (EChild 3)) 0%Z 2%Z 190%Z 15%Z 20%Z 68%Z; Sym 9 KPass None 3%Z 2%Z 190%Z 180%Z 20%Z 20%Z; Sym 10 KPass None 6%Z 2%Z 190%Z 317%Z 20%Z 20%Z; Sym 11 KPass None 8%Z 2%Z 190%Z 415%Z 20%Z 20%Z; Sym 12 KPass None 9%Z 2%Z 190%Z 450%Z 20%Z 20%Z; Sym 13 KInst (Some (EChild 6)) 0%Z 3%Z 280%Z 15%Z 65%Z 80%Z; Sym 14 KPass None 3%Z 3%Z 280%Z 180%Z 20%Z 20%Z; Sym 15 KPass None 6%Z 3%Z 280%Z 317%Z 20%Z 20%Z; Sym 16 KPass None 9%Z 3%Z 280%Z 450%Z 20%Z 20%Z; Sym 17 KInst (Some (EChild 5)) 0%Z 4%Z 405%Z 15%Z 50%Z 58%Z; Sym 18 KPass None 1%Z 4%Z 405%Z 110%Z 20%Z 20%Z; Sym 19 KPass None 2%Z 4%Z 405%Z 145%Z 20%Z 20%Z; Sym 20 KPass None 6%Z 4%Z 405%Z 317%Z 20%Z 20%Z; Sym 21 KPass None 9%Z 4%Z 405%Z 450%Z 20%Z 20%Z; Sym 22 KInst (Some (EChild 2)) 0%Z 5%Z 515%Z 15%Z 20%Z 68%Z; Sym 23 KPass None 2%Z 5%Z 515%Z 145%Z 20%Z 20%Z; Sym 24 KPass None 9%Z 5%Z 515%Z 450%Z 20%Z 20%Z; Sym 25 KOut (Some (EOut 0)) 0%Z 6%Z 575%Z 15%Z 15%Z 20%Z; Sym 26 KFbStart None 9%Z 6%Z 575%Z 450%Z 20%Z 20%Z] [Net 5 (End 17 (Some (Pin (EChild 5) true 0))) (End 22 (Some (Pin (EChild 2) false 2))); Net 3 (End 4 (Some (Pin (EChild 1) true 0))) (End 8 (Some (Pin (EChild 3) false 2))); Net 0 (End 0 (Some (Pin (EIn 0) true 0))) (End 6 (Some (Pin (EChild 4) false 0))); Net 1 (End 1 (Some (Pin (EIn 1) true 0))) (End 6 (Some (Pin (EChild 4) false 1))); Net 4 (End 13 (Some (Pin (EChild 6) true 0))) (End 17 (Some (Pin (EChild 5) false 0))); Net 7 (End 8 (Some (Pin (EChild 3) true 0))) (End 13 (Some (Pin (EChild 6) false 0))); Net 0 (End 0 (Some (Pin (EIn 0) true 0))) (End 3 None); Net 0 (End 3 None) (End 8 (Some (Pin (EChild 3) false 0))); Net 1 (End 1 (Some (Pin (EIn 1) true 0))) (End 5 None); Net 1 (End 5 None) (End 10 None); Net 1 (End 10 None) (End 15 None); Net 1 (End 15 None) (End 20 None); Net 1 (End 20 None) (End 22 (Some (Pin (EChild 2) false 0))); Net 2 (End 2 (Some (Pin (EChild 0) true 0))) (End 9 None); Net 2 (End 9 None) (End 14 None); Net 2 (End 14 None) (End 17 (Some (Pin (EChild 5) false 1))); Net 8 (End 6 (Some (Pin (EChild 4) true 0))) (End 11 None); Net 8 (End 11 None) (End 13 (Some (Pin (EChild 6) false 1))); Net 4 (End 13 (Some (Pin (EChild 6) true 0))) (End 19 None); Net 4 (End 19 None) (End 23 None); Net 4 (End 23 None) (End 25 (Some (Pin (EOut 0) false 0))); Net 4 (End 13 (Some (Pin (EChild 6) true 0))) (End 18 None); Net 4 (End 18 None) (End 22 (Some (Pin (EChild 2) false 1))); Net 6 (End 22 (Some (Pin (EChild 2) true 0))) (End 26 None); Net 6 (End 24 None) (End 26 None); Net 6 (End 21 None) (End 24 None); Net 6 (End 16 None) (End 21 None); Net 6 (End 12 None) (End 16 None); Net 6 (End 7 None) (End 12 None); Net 6 (End 7 None) (End 8 (Some (Pin (EChild 3) false 1)))]).
-(* ex_selfloop : children ['Reg:r'] ; swallowed ['WARNING: error in passthrough: AssertionError'] *)
+  (Lay [Sym 0 KIn (Some (EIn 0)) 0%Z 0%Z 0%Z 15%Z 15%Z 20%Z; Sym 1 KIn (Some (EIn 1)) 5%Z 0%Z 0%Z 250%Z 15%Z 20%Z; Sym 2 KInst (Some (EChild 0)) 0%Z 1%Z 55%Z 15%Z 55%Z 52%Z; Sym 3 KPass None 4%Z 1%Z 55%Z 215%Z 20%Z 20%Z; Sym 4 KInst (Some (EChild 1)) 5%Z 1%Z 55%Z 250%Z 55%Z 52%Z; Sym 5 KPass None 6%Z 1%Z 55%Z 317%Z 20%Z 20%Z; Sym 6 KInst (Some (EChild 4)) 7%Z 1%Z 55%Z 352%Z 50%Z 48%Z; Sym 7 KFbStop None 9%Z 1%Z 55%Z 450%Z 20%Z 20%Z; Sym 8 KInst (Some (EChild 3)) 0%Z 2%Z 190%Z 15%Z 20%Z 68%Z; Sym 9 KPass None 3%Z 2%Z 190%Z 180%Z 20%Z 20%Z; Sym 10 KPass None 6%Z 2%Z 190%Z 317%Z 20%Z 20%Z; Sym 11 KPass None 8%Z 2%Z 190%Z 415%Z 20%Z 20%Z; Sym 12 KPass None 9%Z 2%Z 190%Z 450%Z 20%Z 20%Z; Sym 13 KInst (Some (EChild 6)) 0%Z 3%Z 280%Z 15%Z 65%Z 80%Z; Sym 14 KPass None 3%Z 3%Z 280%Z 180%Z 20%Z 20%Z; Sym 15 KPass None 6%Z 3%Z 280%Z 317%Z 20%Z 20%Z; Sym 16 KPass None 9%Z 3%Z 280%Z 450%Z 20%Z 20%Z; Sym 17 KInst (Some (EChild 5)) 0%Z 4%Z 405%Z 15%Z 50%Z 58%Z; Sym 18 KPass None 1%Z 4%Z 405%Z 110%Z 20%Z 20%Z; Sym 19 KPass None 2%Z 4%Z 405%Z 145%Z 20%Z 20%Z; Sym 20 KPass None 6%Z 4%Z 405%Z 317%Z 20%Z 20%Z; Sym 21 KPass None 9%Z 4%Z 405%Z 450%Z 20%Z 20%Z; Sym 22 KInst (Some (EChild 2)) 0%Z 5%Z 515%Z 15%Z 20%Z 68%Z; Sym 23 KPass None 1%Z 5%Z 515%Z 110%Z 20%Z 20%Z; Sym 24 KPass None 9%Z 5%Z 515%Z 450%Z 20%Z 20%Z; Sym 25 KOut (Some (EOut 0)) 0%Z 6%Z 575%Z 15%Z 15%Z 20%Z; Sym 26 KFbStart None 9%Z 6%Z 575%Z 450%Z 20%Z 20%Z] [Net 5 (End 17 (Some (Pin (EChild 5) true 0))) (End 22 (Some (Pin (EChild 2) false 2))) (Some (455%Z, 36%Z)) (Some (515%Z, 73%Z)); Net 3 (End 4 (Some (Pin (EChild 1) true 0))) (End 8 (Some (Pin (EChild 3) false 2))) (Some (110%Z, 271%Z)) (Some (190%Z, 73%Z)); Net 0 (End 0 (Some (Pin (EIn 0) true 0))) (End 6 (Some (Pin (EChild 4) false 0))) (Some (15%Z, 28%Z)) (Some (60%Z, 370%Z)); Net 1 (End 1 (Some (Pin (EIn 1) true 0))) (End 6 (Some (Pin (EChild 4) false 1))) (Some (15%Z, 263%Z)) (Some (60%Z, 390%Z)); Net 4 (End 13 (Some (Pin (EChild 6) true 0))) (End 17 (Some (Pin (EChild 5) false 0))) (Some (345%Z, 36%Z)) (Some (413%Z, 31%Z)); Net 7 (End 8 (Some (Pin (EChild 3) true 0))) (End 13 (Some (Pin (EChild 6) false 0))) (Some (210%Z, 63%Z)) (Some (280%Z, 36%Z)); Net 0 (End 0 (Some (Pin (EIn 0) true 0))) (End 3 None) (Some (15%Z, 28%Z)) (Some (55%Z, 225%Z)); Net 0 (End 3 None) (End 8 (Some (Pin (EChild 3) false 0))) (Some (75%Z, 225%Z)) (Some (190%Z, 33%Z)); Net 1 (End 1 (Some (Pin (EIn 1) true 0))) (End 5 None) (Some (15%Z, 263%Z)) (Some (55%Z, 327%Z)); Net 1 (End 5 None) (End 10 None) (Some (75%Z, 327%Z)) (Some (190%Z, 327%Z)); Net 1 (End 10 None) (End 15 None) (Some (210%Z, 327%Z)) (Some (280%Z, 327%Z)); Net 1 (End 15 None) (End 20 None) (Some (300%Z, 327%Z)) (Some (405%Z, 327%Z)); Net 1 (End 20 None) (End 22 (Some (Pin (EChild 2) false 0))) (Some (425%Z, 327%Z)) (Some (515%Z, 33%Z)); Net 2 (End 2 (Some (Pin (EChild 0) true 0))) (End 9 None) (Some (110%Z, 36%Z)) (Some (190%Z, 190%Z)); Net 2 (End 9 None) (End 14 None) (Some (210%Z, 190%Z)) (Some (280%Z, 190%Z)); Net 2 (End 14 None) (End 17 (Some (Pin (EChild 5) false 1))) (Some (300%Z, 190%Z)) (Some (413%Z, 65%Z)); Net 8 (End 6 (Some (Pin (EChild 4) true 0))) (End 11 None) (Some (105%Z, 380%Z)) (Some (190%Z, 425%Z)); Net 8 (End 11 None) (End 13 (Some (Pin (EChild 6) false 1))) (Some (210%Z, 425%Z)) (Some (280%Z, 64%Z)); Net 4 (End 13 (Some (Pin (EChild 6) true 0))) (End 19 None) (Some (345%Z, 36%Z)) (Some (405%Z, 155%Z)); Net 4 (End 19 None) (End 22 (Some (Pin (EChild 2) false 1))) (Some (425%Z, 155%Z)) (Some (515%Z, 53%Z)); Net 4 (End 13 (Some (Pin (EChild 6) true 0))) (End 18 None) (Some (345%Z, 36%Z)) (Some (405%Z, 120%Z)); Net 4 (End 18 None) (End 23 None) (Some (425%Z, 120%Z)) (Some (515%Z, 120%Z)); Net 4 (End 23 None) (End 25 (Some (Pin (EOut 0) false 0))) (Some (535%Z, 120%Z)) (Some (575%Z, 28%Z)); Net 6 (End 22 (Some (Pin (EChild 2) true 0))) (End 26 None) (Some (535%Z, 63%Z)) (Some (550%Z, 460%Z)); Net 6 (End 24 None) (End 26 None) (Some (535%Z, 460%Z)) (Some (550%Z, 460%Z)); Net 6 (End 21 None) (End 24 None) (Some (425%Z, 460%Z)) (Some (515%Z, 460%Z)); Net 6 (End 16 None) (End 21 None) (Some (300%Z, 460%Z)) (Some (405%Z, 460%Z)); Net 6 (End 12 None) (End 16 None) (Some (210%Z, 460%Z)) (Some (280%Z, 460%Z)); Net 6 (End 7 None) (End 12 None) (Some (135%Z, 460%Z)) (Some (190%Z, 460%Z)); Net 6 (End 7 None) (End 8 (Some (Pin (EChild 3) false 1))) (Some (135%Z, 460%Z)) (Some (190%Z, 53%Z))] [PinAt 0 (Pin (EIn 0) true 0) 15%Z 28%Z; PinAt 1 (Pin (EIn 1) true 0) 15%Z 263%Z; PinAt 2 (Pin (EChild 0) true 0) 110%Z 36%Z; PinAt 4 (Pin (EChild 1) true 0) 110%Z 271%Z; PinAt 6 (Pin (EChild 4) false 0) 60%Z 370%Z; PinAt 6 (Pin (EChild 4) false 1) 60%Z 390%Z; PinAt 6 (Pin (EChild 4) true 0) 105%Z 380%Z; PinAt 8 (Pin (EChild 3) false 0) 190%Z 33%Z; PinAt 8 (Pin (EChild 3) false 1) 190%Z 53%Z; PinAt 8 (Pin (EChild 3) false 2) 190%Z 73%Z; PinAt 8 (Pin (EChild 3) true 0) 210%Z 63%Z; PinAt 13 (Pin (EChild 6) false 0) 280%Z 36%Z; PinAt 13 (Pin (EChild 6) false 1) 280%Z 64%Z; PinAt 13 (Pin (EChild 6) true 0) 345%Z 36%Z; PinAt 17 (Pin (EChild 5) false 0) 413%Z 31%Z; PinAt 17 (Pin (EChild 5) false 1) 413%Z 65%Z; PinAt 17 (Pin (EChild 5) true 0) 455%Z 36%Z; PinAt 22 (Pin (EChild 2) false 0) 515%Z 33%Z; PinAt 22 (Pin (EChild 2) false 1) 515%Z 53%Z; PinAt 22 (Pin (EChild 2) false 2) 515%Z 73%Z; PinAt 22 (Pin (EChild 2) true 0) 535%Z 63%Z; PinAt 25 (Pin (EOut 0) false 0) 575%Z 28%Z]).
+(* ex_addco : children ['Add:add'] ; swallowed [] *)
+(*   sym 0 KIn a for=('in', 0) cell=(0, 0) *)
+(*   sym 1 KIn b for=('in', 1) cell=(1, 0) *)
+(*   sym 2 KInst add for=('ch', 0) cell=(0, 1) *)
+(*   sym 3 KOut r for=('out', 0) cell=(0, 2) *)
+(*   sym 4 KOut co for=('out', 1) cell=(1, 2) *)
+(*   net 0 w0 /HWSystem[HWSystem][a]: a.a -> add.a   (15, 28) -> (63, 31) *)
+(*   net 1 w1 /HWSystem[HWSystem][b]: b.b -> add.b   (15, 101) -> (63, 65) *)
+(*   net 2 w2 /HWSystem[HWSystem][r]: add.r -> r.r   (105, 36) -> (145, 28) *)
+(*   net 3 w3 /HWSystem[HWSystem][co]: add.co -> co.co   (105, 64) -> (145, 101) *)
+Definition ex_addco_c : circuit :=
+  (Circ 2 2 [(2, 2)] [WC 0 (Pin (EIn 0) true 0) [(Pin (EChild 0) false 0)]; WC 1 (Pin (EIn 1) true 0) [(Pin (EChild 0) false 1)]; WC 2 (Pin (EChild 0) true 0) [(Pin (EOut 0) false 0)]; WC 3 (Pin (EChild 0) true 1) [(Pin (EOut 1) false 0)]]).
+Definition ex_addco_l : layout :=
+  (Lay [Sym 0 KIn (Some (EIn 0)) 0%Z 0%Z 0%Z 15%Z 15%Z 20%Z; Sym 1 KIn (Some (EIn 1)) 1%Z 0%Z 0%Z 88%Z 15%Z 20%Z; Sym 2 KInst (Some (EChild 0)) 0%Z 1%Z 55%Z 15%Z 50%Z 58%Z; Sym 3 KOut (Some (EOut 0)) 0%Z 2%Z 145%Z 15%Z 15%Z 20%Z; Sym 4 KOut (Some (EOut 1)) 1%Z 2%Z 145%Z 88%Z 15%Z 20%Z] [Net 0 (End 0 (Some (Pin (EIn 0) true 0))) (End 2 (Some (Pin (EChild 0) false 0))) (Some (15%Z, 28%Z)) (Some (63%Z, 31%Z)); Net 1 (End 1 (Some (Pin (EIn 1) true 0))) (End 2 (Some (Pin (EChild 0) false 1))) (Some (15%Z, 101%Z)) (Some (63%Z, 65%Z)); Net 2 (End 2 (Some (Pin (EChild 0) true 0))) (End 3 (Some (Pin (EOut 0) false 0))) (Some (105%Z, 36%Z)) (Some (145%Z, 28%Z)); Net 3 (End 2 (Some (Pin (EChild 0) true 1))) (End 4 (Some (Pin (EOut 1) false 0))) (Some (105%Z, 64%Z)) (Some (145%Z, 101%Z))] [PinAt 0 (Pin (EIn 0) true 0) 15%Z 28%Z; PinAt 1 (Pin (EIn 1) true 0) 15%Z 101%Z; PinAt 2 (Pin (EChild 0) false 0) 63%Z 31%Z; PinAt 2 (Pin (EChild 0) false 1) 63%Z 65%Z; PinAt 2 (Pin (EChild 0) true 0) 105%Z 36%Z; PinAt 2 (Pin (EChild 0) true 1) 105%Z 64%Z; PinAt 3 (Pin (EOut 0) false 0) 145%Z 28%Z; PinAt 4 (Pin (EOut 1) false 0) 145%Z 101%Z]).
+(* the same layout with the pin co of the adder drawn at the point of its pin r (and the net of co starting there) *)
+Definition ex_addco_clash_l : layout :=
+  (Lay [Sym 0 KIn (Some (EIn 0)) 0%Z 0%Z 0%Z 15%Z 15%Z 20%Z; Sym 1 KIn (Some (EIn 1)) 1%Z 0%Z 0%Z 88%Z 15%Z 20%Z; Sym 2 KInst (Some (EChild 0)) 0%Z 1%Z 55%Z 15%Z 50%Z 58%Z; Sym 3 KOut (Some (EOut 0)) 0%Z 2%Z 145%Z 15%Z 15%Z 20%Z; Sym 4 KOut (Some (EOut 1)) 1%Z 2%Z 145%Z 88%Z 15%Z 20%Z] [Net 0 (End 0 (Some (Pin (EIn 0) true 0))) (End 2 (Some (Pin (EChild 0) false 0))) (Some (15%Z, 28%Z)) (Some (63%Z, 31%Z)); Net 1 (End 1 (Some (Pin (EIn 1) true 0))) (End 2 (Some (Pin (EChild 0) false 1))) (Some (15%Z, 101%Z)) (Some (63%Z, 65%Z)); Net 2 (End 2 (Some (Pin (EChild 0) true 0))) (End 3 (Some (Pin (EOut 0) false 0))) (Some (105%Z, 36%Z)) (Some (145%Z, 28%Z)); Net 3 (End 2 (Some (Pin (EChild 0) true 1))) (End 4 (Some (Pin (EOut 1) false 0))) (Some (105%Z, 36%Z)) (Some (145%Z, 101%Z))] [PinAt 0 (Pin (EIn 0) true 0) 15%Z 28%Z; PinAt 1 (Pin (EIn 1) true 0) 15%Z 101%Z; PinAt 2 (Pin (EChild 0) false 0) 63%Z 31%Z; PinAt 2 (Pin (EChild 0) false 1) 63%Z 65%Z; PinAt 2 (Pin (EChild 0) true 0) 105%Z 36%Z; PinAt 2 (Pin (EChild 0) true 1) 105%Z 36%Z; PinAt 3 (Pin (EOut 0) false 0) 145%Z 28%Z; PinAt 4 (Pin (EOut 1) false 0) 145%Z 101%Z]).
+(* the same layout with net 0 ending one pixel below the pin it names *)
+Definition ex_addco_offpin_l : layout :=
+  (Lay [Sym 0 KIn (Some (EIn 0)) 0%Z 0%Z 0%Z 15%Z 15%Z 20%Z; Sym 1 KIn (Some (EIn 1)) 1%Z 0%Z 0%Z 88%Z 15%Z 20%Z; Sym 2 KInst (Some (EChild 0)) 0%Z 1%Z 55%Z 15%Z 50%Z 58%Z; Sym 3 KOut (Some (EOut 0)) 0%Z 2%Z 145%Z 15%Z 15%Z 20%Z; Sym 4 KOut (Some (EOut 1)) 1%Z 2%Z 145%Z 88%Z 15%Z 20%Z] [Net 0 (End 0 (Some (Pin (EIn 0) true 0))) (End 2 (Some (Pin (EChild 0) false 0))) (Some (15%Z, 28%Z)) (Some (63%Z, 32%Z)); Net 1 (End 1 (Some (Pin (EIn 1) true 0))) (End 2 (Some (Pin (EChild 0) false 1))) (Some (15%Z, 101%Z)) (Some (63%Z, 65%Z)); Net 2 (End 2 (Some (Pin (EChild 0) true 0))) (End 3 (Some (Pin (EOut 0) false 0))) (Some (105%Z, 36%Z)) (Some (145%Z, 28%Z)); Net 3 (End 2 (Some (Pin (EChild 0) true 1))) (End 4 (Some (Pin (EOut 1) false 0))) (Some (105%Z, 64%Z)) (Some (145%Z, 101%Z))] [PinAt 0 (Pin (EIn 0) true 0) 15%Z 28%Z; PinAt 1 (Pin (EIn 1) true 0) 15%Z 101%Z; PinAt 2 (Pin (EChild 0) false 0) 63%Z 31%Z; PinAt 2 (Pin (EChild 0) false 1) 63%Z 65%Z; PinAt 2 (Pin (EChild 0) true 0) 105%Z 36%Z; PinAt 2 (Pin (EChild 0) true 1) 105%Z 64%Z; PinAt 3 (Pin (EOut 0) false 0) 145%Z 28%Z; PinAt 4 (Pin (EOut 1) false 0) 145%Z 101%Z]).
+(* ex_selfloop_repaired (layout built by the current insertFeedback) : children ['Reg:r'] ; swallowed [] *)
 (*   sym 0 KIn d for=('in', 0) cell=(0, 0) *)
-(*   sym 1 KPass pt2 for=None cell=(1, 0) *)
+(*   sym 1 KFbStop fZ2 for=None cell=(1, 0) *)
 (*   sym 2 KInst r for=('ch', 0) cell=(0, 1) *)
 (*   sym 3 KPass pt1 for=None cell=(1, 1) *)
 (*   sym 4 KOut q for=('out', 0) cell=(0, 2) *)
 (*   sym 5 KFbStart fA0 for=None cell=(1, 2) *)
-(*   net 0 w0 /HWSystem[HWSystem][d]: d.d -> r.d *)
-(*   net 1 w1 /HWSystem[HWSystem][q]: r.q -> q.q *)
-(*   net 2 w1 /HWSystem[HWSystem][q]: r.q -> fA0.None *)
-(*   net 3 w1 /HWSystem[HWSystem][q]: pt1.None -> fA0.None *)
-(*   net 4 w1 /HWSystem[HWSystem][q]: pt2.None -> pt1.None *)
-Definition ex_selfloop_c : circuit :=
-  (Circ 1 1 [(2, 1)] [WC 0 (Pin (EIn 0) true 0) [(Pin (EChild 0) false 0)]; WC 1 (Pin (EChild 0) true 0) [(Pin (EChild 0) false 1); (Pin (EOut 0) false 0)]]).
-Definition ex_selfloop_l : layout :=
-  (Lay [Sym 0 KIn (Some (EIn 0)) 0%Z 0%Z 0%Z 15%Z 15%Z 20%Z; Sym 1 KPass None 1%Z 0%Z 0%Z 110%Z 20%Z 20%Z; Sym 2 KInst (Some (EChild 0)) 0%Z 1%Z 60%Z 15%Z 65%Z 80%Z; Sym 3 KPass None 1%Z 1%Z 60%Z 110%Z 20%Z 20%Z; Sym 4 KOut (Some (EOut 0)) 0%Z 2%Z 155%Z 15%Z 15%Z 20%Z; Sym 5 KFbStart None 1%Z 2%Z 155%Z 110%Z 20%Z 20%Z] [Net 0 (End 0 (Some (Pin (EIn 0) true 0))) (End 2 (Some (Pin (EChild 0) false 0))); Net 1 (End 2 (Some (Pin (EChild 0) true 0))) (End 4 (Some (Pin (EOut 0) false 0))); Net 1 (End 2 (Some (Pin (EChild 0) true 0))) (End 5 None); Net 1 (End 3 None) (End 5 None); Net 1 (End 1 None) (End 3 None)]).
-
+(*   net 0 w0 /HWSystem[HWSystem][d]: d.d -> r.d   (15, 28) -> (60, 36) *)
+(*   net 1 w1 /HWSystem[HWSystem][q]: r.q -> q.q   (125, 36) -> (155, 28) *)
+(*   net 2 w1 /HWSystem[HWSystem][q]: r.q -> fA0.None   (125, 36) -> (140, 120) *)
+(*   net 3 w1 /HWSystem[HWSystem][q]: pt1.None -> fA0.None   (80, 120) -> (140, 120) *)
+(*   net 4 w1 /HWSystem[HWSystem][q]: fZ2.None -> pt1.None   (45, 120) -> (60, 120) *)
+(*   net 5 w1 /HWSystem[HWSystem][q]: fZ2.None -> r.e   (45, 120) -> (60, 64) *)
+Definition ex_selfloop_repaired_l : layout :=
+  (Lay [Sym 0 KIn (Some (EIn 0)) 0%Z 0%Z 0%Z 15%Z 15%Z 20%Z; Sym 1 KFbStop None 1%Z 0%Z 0%Z 110%Z 20%Z 20%Z; Sym 2 KInst (Some (EChild 0)) 0%Z 1%Z 60%Z 15%Z 65%Z 80%Z; Sym 3 KPass None 1%Z 1%Z 60%Z 110%Z 20%Z 20%Z; Sym 4 KOut (Some (EOut 0)) 0%Z 2%Z 155%Z 15%Z 15%Z 20%Z; Sym 5 KFbStart None 1%Z 2%Z 155%Z 110%Z 20%Z 20%Z] [Net 0 (End 0 (Some (Pin (EIn 0) true 0))) (End 2 (Some (Pin (EChild 0) false 0))) (Some (15%Z, 28%Z)) (Some (60%Z, 36%Z)); Net 1 (End 2 (Some (Pin (EChild 0) true 0))) (End 4 (Some (Pin (EOut 0) false 0))) (Some (125%Z, 36%Z)) (Some (155%Z, 28%Z)); Net 1 (End 2 (Some (Pin (EChild 0) true 0))) (End 5 None) (Some (125%Z, 36%Z)) (Some (140%Z, 120%Z)); Net 1 (End 3 None) (End 5 None) (Some (80%Z, 120%Z)) (Some (140%Z, 120%Z)); Net 1 (End 1 None) (End 3 None) (Some (45%Z, 120%Z)) (Some (60%Z, 120%Z)); Net 1 (End 1 None) (End 2 (Some (Pin (EChild 0) false 1))) (Some (45%Z, 120%Z)) (Some (60%Z, 64%Z))] [PinAt 0 (Pin (EIn 0) true 0) 15%Z 28%Z; PinAt 2 (Pin (EChild 0) false 0) 60%Z 36%Z; PinAt 2 (Pin (EChild 0) false 1) 60%Z 64%Z; PinAt 2 (Pin (EChild 0) true 0) 125%Z 36%Z; PinAt 4 (Pin (EOut 0) false 0) 155%Z 28%Z]).
 
 (* the real layouts of Add(8 bit, carry out) and Counter(4 bit) (pass-throughs, a feedback loop) are accepted *)
 Lemma ex_add_accepted : schem_ok ex_add_c ex_add_l = true.
@@ -121,62 +157,75 @@ Proof. apply schem_ok_sound. exact ex_add_accepted. Qed.
 Lemma ex_counter_SchemOK : SchemOK ex_counter_c ex_counter_l.
 Proof. apply schem_ok_sound. exact ex_counter_accepted. Qed.
 
-(* dropping the net  pt0 -> add.a  of wire a  is rejected by the validator ... *)
+(* dropping the net  pt0 -> add.a  of wire a  is rejected by the validator, hence (completeness) violates the statement *)
 Lemma ex_add_dropped_rejected : schem_ok ex_add_c ex_add_dropped_l = false.
 Proof. vm_compute. reflexivity. Qed.
-Lemma ex_add_dropped_diag :
-  schem_diag ex_add_c ex_add_dropped_l = ((true, true, true, true, true, true, false), [], [], [], [], [(0%nat, true, [0%nat], 0%nat)]).
-Proof. vm_compute. reflexivity. Qed.
-
-(* ... and really violates the declarative statement: no net of wire 0 ends at pin a of the adder *)
 Lemma ex_add_dropped_not_SchemOK : ~ SchemOK ex_add_c ex_add_dropped_l.
-Proof.
-  intro H.
-  destruct (ok_wire _ _ H (WC 0 (Pin (EIn 0) true 0) [Pin (EChild 1) false 0])) as [sd [_ [_ [Hrd _]]]].
-  { simpl. left. reflexivity. }
-  destruct (Hrd (Pin (EChild 1) false 0) (or_introl eq_refl)) as [sp [_ [_ [n [Hn [Hw Ha]]]]]].
-  simpl in Hn.
-  repeat (destruct Hn as [Hn|Hn];
-          [subst n; simpl in Hw; try discriminate Hw; destruct Ha as [Ha|Ha]; inversion Ha | ]).
-  contradiction Hn.
-Qed.
+Proof. apply schem_ok_false. exact ex_add_dropped_rejected. Qed.
 
-(* the layout py4hw really produces for  Reg(d, q, enable=q)  (known finding C18-F1): the net q -> r.e is lost *)
+(* a block with an Add child that has a carry output (the '+' circle with two output pins): accepted as built;
+   rejected when the two output pins are drawn at one point, and when a net ends one pixel off its pin *)
+Lemma ex_addco_accepted : schem_ok ex_addco_c ex_addco_l = true.
+Proof. vm_compute. reflexivity. Qed.
+Lemma ex_addco_clash_rejected : schem_ok ex_addco_c ex_addco_clash_l = false.
+Proof. vm_compute. reflexivity. Qed.
+Lemma ex_addco_clash_not_SchemOK : ~ SchemOK ex_addco_c ex_addco_clash_l.
+Proof. apply schem_ok_false. exact ex_addco_clash_rejected. Qed.
+Lemma ex_addco_offpin_rejected : schem_ok ex_addco_c ex_addco_offpin_l = false.
+Proof. vm_compute. reflexivity. Qed.
+Lemma ex_addco_offpin_not_SchemOK : ~ SchemOK ex_addco_c ex_addco_offpin_l.
+Proof. apply schem_ok_false. exact ex_addco_offpin_rejected. Qed.
+
+(* the layout py4hw USED TO build for  Reg(d, q, enable=q)  (finding C18-F1, repaired by ead5329): the net q -> r.e is lost *)
 Lemma ex_selfloop_rejected : schem_ok ex_selfloop_c ex_selfloop_l = false.
 Proof. vm_compute. reflexivity. Qed.
-Lemma ex_selfloop_diag :
-  schem_diag ex_selfloop_c ex_selfloop_l = ((true, true, true, true, true, true, false), [], [], [], [], [(1%nat, true, [0%nat], 0%nat)]).
-Proof. vm_compute. reflexivity. Qed.
-
 Lemma ex_selfloop_not_SchemOK : ~ SchemOK ex_selfloop_c ex_selfloop_l.
-Proof.
-  intro H.
-  destruct (ok_wire _ _ H (WC 1 (Pin (EChild 0) true 0) [Pin (EChild 0) false 1; Pin (EOut 0) false 0])) as [sd [_ [_ [Hrd _]]]].
-  { simpl. right. left. reflexivity. }
-  destruct (Hrd (Pin (EChild 0) false 1) (or_introl eq_refl)) as [sp [_ [_ [n [Hn [Hw Ha]]]]]].
-  simpl in Hn.
-  repeat (destruct Hn as [Hn|Hn];
-          [subst n; simpl in Hw; try discriminate Hw; destruct Ha as [Ha|Ha]; inversion Ha | ]).
-  contradiction Hn.
-Qed.
+Proof. apply schem_ok_false. exact ex_selfloop_rejected. Qed.
 
-(* the layout the REPAIRED insertFeedback (fixes/C18-F1.diff: the stop marker of a same-column feedback goes into the column
-   before the sink, like every other feedback) builds for the same block  Reg(d, q, enable=q) : *)
-(*   sym 0 KIn d for=('in', 0) cell=(0, 0) *)
-(*   sym 1 KFbStop fZ2 for=None cell=(1, 0) *)
-(*   sym 2 KInst r for=('ch', 0) cell=(0, 1) *)
-(*   sym 3 KPass pt1 for=None cell=(1, 1) *)
-(*   sym 4 KOut q for=('out', 0) cell=(0, 2) *)
-(*   sym 5 KFbStart fA0 for=None cell=(1, 2) *)
-(*   net 0 w0 /HWSystem[HWSystem][d]: d.d -> r.d *)
-(*   net 1 w1 /HWSystem[HWSystem][q]: r.q -> q.q *)
-(*   net 2 w1 /HWSystem[HWSystem][q]: r.q -> fA0.None *)
-(*   net 3 w1 /HWSystem[HWSystem][q]: pt1.None -> fA0.None *)
-(*   net 4 w1 /HWSystem[HWSystem][q]: fZ2.None -> pt1.None *)
-(*   net 5 w1 /HWSystem[HWSystem][q]: fZ2.None -> r.e *)
-Definition ex_selfloop_repaired_l : layout :=
-  (Lay [Sym 0 KIn (Some (EIn 0)) 0%Z 0%Z 0%Z 15%Z 15%Z 20%Z; Sym 1 KFbStop None 1%Z 0%Z 0%Z 110%Z 20%Z 20%Z; Sym 2 KInst (Some (EChild 0)) 0%Z 1%Z 60%Z 15%Z 65%Z 80%Z; Sym 3 KPass None 1%Z 1%Z 60%Z 110%Z 20%Z 20%Z; Sym 4 KOut (Some (EOut 0)) 0%Z 2%Z 155%Z 15%Z 15%Z 20%Z; Sym 5 KFbStart None 1%Z 2%Z 155%Z 110%Z 20%Z 20%Z] [Net 0 (End 0 (Some (Pin (EIn 0) true 0))) (End 2 (Some (Pin (EChild 0) false 0))); Net 1 (End 2 (Some (Pin (EChild 0) true 0))) (End 4 (Some (Pin (EOut 0) false 0))); Net 1 (End 2 (Some (Pin (EChild 0) true 0))) (End 5 None); Net 1 (End 3 None) (End 5 None); Net 1 (End 1 None) (End 3 None); Net 1 (End 1 None) (End 2 (Some (Pin (EChild 0) false 1)))]).
+(* the layout the repaired insertFeedback builds for the same block *)
 Lemma ex_selfloop_repaired_accepted : schem_ok ex_selfloop_c ex_selfloop_repaired_l = true.
 Proof. vm_compute. reflexivity. Qed.
 Lemma ex_selfloop_repaired_SchemOK : SchemOK ex_selfloop_c ex_selfloop_repaired_l.
 Proof. apply schem_ok_sound. exact ex_selfloop_repaired_accepted. Qed.
+
+(* finding C18-F2: a block with an Add child that has a CARRY INPUT, as py4hw draws it on /repo 453c72d: the input pins b and ci
+   of the '+' circle are at one point *)
+(* ex_addci : children ['Add:g'] *)
+(*   sym 0 KIn a for=('in', 0) cell=(0, 0) *)
+(*   sym 1 KIn b for=('in', 1) cell=(1, 0) *)
+(*   sym 2 KIn ci for=('in', 2) cell=(2, 0) *)
+(*   sym 3 KInst g for=('ch', 0) cell=(0, 1) *)
+(*   sym 4 KOut r for=('out', 0) cell=(0, 2) *)
+(*   sym 5 KOut co for=('out', 1) cell=(1, 2) *)
+(*   net 0 w0 /HWSystem[HWSystem][i_a]: a.a -> g.a   (15, 28) -> (73, 31) *)
+(*   net 1 w1 /HWSystem[HWSystem][i_b]: b.b -> g.b   (15, 101) -> (73, 65) *)
+(*   net 2 w2 /HWSystem[HWSystem][i_ci]: ci.ci -> g.ci   (15, 136) -> (73, 65) *)
+(*   net 3 w3 /HWSystem[HWSystem][o_r]: g.r -> r.r   (115, 36) -> (155, 28) *)
+(*   net 4 w4 /HWSystem[HWSystem][o_co]: g.co -> co.co   (115, 64) -> (155, 101) *)
+Definition ex_addci_c : circuit :=
+  (Circ 3 2 [(3, 2)] [WC 0 (Pin (EIn 0) true 0) [(Pin (EChild 0) false 0)]; WC 1 (Pin (EIn 1) true 0) [(Pin (EChild 0) false 1)]; WC 2 (Pin (EIn 2) true 0) [(Pin (EChild 0) false 2)]; WC 3 (Pin (EChild 0) true 0) [(Pin (EOut 0) false 0)]; WC 4 (Pin (EChild 0) true 1) [(Pin (EOut 1) false 0)]]).
+Definition ex_addci_l : layout :=
+  (Lay [Sym 0 KIn (Some (EIn 0)) 0%Z 0%Z 0%Z 15%Z 15%Z 20%Z; Sym 1 KIn (Some (EIn 1)) 1%Z 0%Z 0%Z 88%Z 15%Z 20%Z; Sym 2 KIn (Some (EIn 2)) 2%Z 0%Z 0%Z 123%Z 15%Z 20%Z; Sym 3 KInst (Some (EChild 0)) 0%Z 1%Z 65%Z 15%Z 50%Z 58%Z; Sym 4 KOut (Some (EOut 0)) 0%Z 2%Z 155%Z 15%Z 15%Z 20%Z; Sym 5 KOut (Some (EOut 1)) 1%Z 2%Z 155%Z 88%Z 15%Z 20%Z] [Net 0 (End 0 (Some (Pin (EIn 0) true 0))) (End 3 (Some (Pin (EChild 0) false 0))) (Some (15%Z, 28%Z)) (Some (73%Z, 31%Z)); Net 1 (End 1 (Some (Pin (EIn 1) true 0))) (End 3 (Some (Pin (EChild 0) false 1))) (Some (15%Z, 101%Z)) (Some (73%Z, 65%Z)); Net 2 (End 2 (Some (Pin (EIn 2) true 0))) (End 3 (Some (Pin (EChild 0) false 2))) (Some (15%Z, 136%Z)) (Some (73%Z, 65%Z)); Net 3 (End 3 (Some (Pin (EChild 0) true 0))) (End 4 (Some (Pin (EOut 0) false 0))) (Some (115%Z, 36%Z)) (Some (155%Z, 28%Z)); Net 4 (End 3 (Some (Pin (EChild 0) true 1))) (End 5 (Some (Pin (EOut 1) false 0))) (Some (115%Z, 64%Z)) (Some (155%Z, 101%Z))] [PinAt 0 (Pin (EIn 0) true 0) 15%Z 28%Z; PinAt 1 (Pin (EIn 1) true 0) 15%Z 101%Z; PinAt 2 (Pin (EIn 2) true 0) 15%Z 136%Z; PinAt 3 (Pin (EChild 0) false 0) 73%Z 31%Z; PinAt 3 (Pin (EChild 0) false 1) 73%Z 65%Z; PinAt 3 (Pin (EChild 0) false 2) 73%Z 65%Z; PinAt 3 (Pin (EChild 0) true 0) 115%Z 36%Z; PinAt 3 (Pin (EChild 0) true 1) 115%Z 64%Z; PinAt 4 (Pin (EOut 0) false 0) 155%Z 28%Z; PinAt 5 (Pin (EOut 1) false 0) 155%Z 101%Z]).
+Lemma ex_addci_rejected : schem_ok ex_addci_c ex_addci_l = false.
+Proof. vm_compute. reflexivity. Qed.
+Lemma ex_addci_not_SchemOK : ~ SchemOK ex_addci_c ex_addci_l.
+Proof. apply schem_ok_false. exact ex_addci_rejected. Qed.
+(* the same block drawn with fixes/C18-F2.diff applied (carry in at the left-most point of the circle) *)
+(* ex_addci_repaired : children ['Add:g'] *)
+(*   sym 0 KIn a for=('in', 0) cell=(0, 0) *)
+(*   sym 1 KIn b for=('in', 1) cell=(1, 0) *)
+(*   sym 2 KIn ci for=('in', 2) cell=(2, 0) *)
+(*   sym 3 KInst g for=('ch', 0) cell=(0, 1) *)
+(*   sym 4 KOut r for=('out', 0) cell=(0, 2) *)
+(*   sym 5 KOut co for=('out', 1) cell=(1, 2) *)
+(*   net 0 w0 /HWSystem[HWSystem][i_a]: a.a -> g.a   (15, 28) -> (73, 31) *)
+(*   net 1 w1 /HWSystem[HWSystem][i_b]: b.b -> g.b   (15, 101) -> (73, 65) *)
+(*   net 2 w2 /HWSystem[HWSystem][i_ci]: ci.ci -> g.ci   (15, 136) -> (65, 48) *)
+(*   net 3 w3 /HWSystem[HWSystem][o_r]: g.r -> r.r   (115, 36) -> (155, 28) *)
+(*   net 4 w4 /HWSystem[HWSystem][o_co]: g.co -> co.co   (115, 64) -> (155, 101) *)
+Definition ex_addci_repaired_l : layout :=
+  (Lay [Sym 0 KIn (Some (EIn 0)) 0%Z 0%Z 0%Z 15%Z 15%Z 20%Z; Sym 1 KIn (Some (EIn 1)) 1%Z 0%Z 0%Z 88%Z 15%Z 20%Z; Sym 2 KIn (Some (EIn 2)) 2%Z 0%Z 0%Z 123%Z 15%Z 20%Z; Sym 3 KInst (Some (EChild 0)) 0%Z 1%Z 65%Z 15%Z 50%Z 58%Z; Sym 4 KOut (Some (EOut 0)) 0%Z 2%Z 155%Z 15%Z 15%Z 20%Z; Sym 5 KOut (Some (EOut 1)) 1%Z 2%Z 155%Z 88%Z 15%Z 20%Z] [Net 0 (End 0 (Some (Pin (EIn 0) true 0))) (End 3 (Some (Pin (EChild 0) false 0))) (Some (15%Z, 28%Z)) (Some (73%Z, 31%Z)); Net 1 (End 1 (Some (Pin (EIn 1) true 0))) (End 3 (Some (Pin (EChild 0) false 1))) (Some (15%Z, 101%Z)) (Some (73%Z, 65%Z)); Net 2 (End 2 (Some (Pin (EIn 2) true 0))) (End 3 (Some (Pin (EChild 0) false 2))) (Some (15%Z, 136%Z)) (Some (65%Z, 48%Z)); Net 3 (End 3 (Some (Pin (EChild 0) true 0))) (End 4 (Some (Pin (EOut 0) false 0))) (Some (115%Z, 36%Z)) (Some (155%Z, 28%Z)); Net 4 (End 3 (Some (Pin (EChild 0) true 1))) (End 5 (Some (Pin (EOut 1) false 0))) (Some (115%Z, 64%Z)) (Some (155%Z, 101%Z))] [PinAt 0 (Pin (EIn 0) true 0) 15%Z 28%Z; PinAt 1 (Pin (EIn 1) true 0) 15%Z 101%Z; PinAt 2 (Pin (EIn 2) true 0) 15%Z 136%Z; PinAt 3 (Pin (EChild 0) false 0) 73%Z 31%Z; PinAt 3 (Pin (EChild 0) false 1) 73%Z 65%Z; PinAt 3 (Pin (EChild 0) false 2) 65%Z 48%Z; PinAt 3 (Pin (EChild 0) true 0) 115%Z 36%Z; PinAt 3 (Pin (EChild 0) true 1) 115%Z 64%Z; PinAt 4 (Pin (EOut 0) false 0) 155%Z 28%Z; PinAt 5 (Pin (EOut 1) false 0) 155%Z 101%Z]).
+Lemma ex_addci_repaired_accepted : schem_ok ex_addci_c ex_addci_repaired_l = true.
+Proof. vm_compute. reflexivity. Qed.
+Lemma ex_addci_repaired_SchemOK : SchemOK ex_addci_c ex_addci_repaired_l.
+Proof. apply schem_ok_sound. exact ex_addci_repaired_accepted. Qed.
